@@ -151,7 +151,7 @@ PROPS = {
     },
     "C16": {
         'coq': 'Properties/C16.v',
-        'streams': ['loopadv', 'ignore'],
+        'streams': ['loopadv', 'ignore', 'unixapi'],
         'level_text': 'C16_run_never_panics: for every script of arbitrary datagrams, receive errors, stop requests, user behaviour and send-failure pattern the run returns Ok or Err (no panic, fuel suffices); C16_ignored_inert: ignored messages return the state unchanged.',
         'level_note': 'Coq kernel; no axioms; hand-written model of run_inner (src/run.rs), Datapath/Report (src/lib.rs) and Backend::next, with user callbacks and send failures as arbitrary oracles; tied to the code by running RunBuilder::run inline over a scripted Ipc with recording algorithms on the same histories (model and implementation logs compared after sorting hash-ordered DROP/INSTALL batches and renaming uids through the install messages). Assumes handles are used only inside the three callbacks.',
         'rule': 'structured random histories over 3 addresses x 4 flow ids: ready / create (9 algorithm names incl. prefixes, extensions, empty, 63 bytes) / measurement for live and dead flows / close / unknown, 1-4 messages per datagram (occasionally 10-14, exceeding the 1024-byte buffer), restarts, re-creates, receive errors, stop requests; 0-3 additional algorithms with duplicate names and absent instances, 6 table programs incl. a duplicate name and an uncompilable one; callbacks issue set_program/update_field/get_field lists; adversarial datagrams (every type code 0..8, 200, 255, wide codes, truncated/oversized payloads, random bytes, >1024-byte datagrams) and one injected send failure at a random position in a third of the cases; non-trivial = history contains raw adversarial bytes or a failed send',
@@ -160,7 +160,7 @@ PROPS = {
     },
     "C18": {
         'coq': 'Properties/C18.v',
-        'streams': ['loopadv', 'apiorder'],
+        'streams': ['loopadv', 'apiorder', 'unixapi'],
         'level_text': 'PARTIAL. C18_stopped_ends / C18_stop_request_ends / C18_dead_channel_is_error / C18_close_is_last prove the flag logic of get_next_read and the end of run_inner on the model. Wall-clock latency and the Arc reference count cannot be exhibited by the model; the correspondence run observes recv calls after the stop (0), Arc::strong_count (back to 1), the close call and the result.',
         'level_note': 'Coq kernel; no axioms; hand-written model of run_inner (src/run.rs), Datapath/Report (src/lib.rs) and Backend::next, with user callbacks and send failures as arbitrary oracles; tied to the code by running RunBuilder::run inline over a scripted Ipc with recording algorithms on the same histories (model and implementation logs compared after sorting hash-ordered DROP/INSTALL batches and renaming uids through the install messages). Assumes handles are used only inside the three callbacks.',
         'rule': 'structured random histories over 3 addresses x 4 flow ids: ready / create (9 algorithm names incl. prefixes, extensions, empty, 63 bytes) / measurement for live and dead flows / close / unknown, 1-4 messages per datagram (occasionally 10-14, exceeding the 1024-byte buffer), restarts, re-creates, receive errors, stop requests; 0-3 additional algorithms with duplicate names and absent instances, 6 table programs incl. a duplicate name and an uncompilable one; callbacks issue set_program/update_field/get_field lists; non-trivial = the script contains a stop request or starts stopped',
@@ -173,7 +173,7 @@ PROPS = {
                       "error — never Panic (each unreachable!/unwrap/assert/overflow site of the modelled code is a Panic outcome) and never out of "
                       "fuel (C10_parser_terminates: the parser always terminates); C10_runtime_reports: an uncompilable program makes run return Err.",
         "level_note": "Coq kernel; no axioms; hand-written character-level model of the nom parsers (src/lang/ast.rs, prog.rs), of Scope/compile_expr/compile_prog (datapath.rs), lang::compile (mod.rs) and the image encoder (serialize.rs); tied to the code by compiling the same byte strings with portus::lang and with the extracted model and comparing image bytes and the scope's answer (class, index, volatility, type and initial value) for every name occurring in the text.",
-        "streams": ["c10"],
+        "streams": ["c10", "limits"],
         "rule": "exhaustive token sequences (26-token alphabet) up to length 2 raw and up to length 2-3 in five holes of a valid skeleton, a sixth of "
                 "the length-3 raw ones (thorough: all up to 4), random sequences of 4-12 tokens, valid programs with one token replaced/inserted/"
                 "deleted, ill-placed constructs, counter limits (15..300 declarations/locals), nesting depth up to 64, byte-level mutations incl. "
@@ -247,7 +247,7 @@ PROPS = {
                       "That crossbeam's channel and the kernel's Unix datagram queue are such FIFOs cannot be exhibited by the model: the stress stream runs real threads and sockets "
                       "(1-4 senders, bursts of thousands, sizes 13..1024, per-sender sequence numbers and checksums, sender address check, non-blocking empty receive, oversized datagrams, dead handle).",
         "level_note": "Coq kernel; no axioms; the FIFO hypothesis (crossbeam unbounded channel, AF_UNIX SOCK_DGRAM) is assumed by the model and observed by the run.",
-        "streams": ["c19"],
+        "streams": ["c19", "unixapi"],
         "rule": "channel transport: 1-4 concurrent senders x 5000/n datagrams (thorough 100000/n), portus-side send burst, non-blocking empty receive, oversized datagrams of 1025/2048/70000 bytes, "
                 "send through a handle whose backend was dropped; Unix transport: 1-3 sender sockets x 3000/n datagrams with sender-address check, non-blocking empty receive; "
                 "non-trivial = every scenario (each is distinct)",
